@@ -132,6 +132,7 @@ type c19Params struct {
 	Bound  int      `json:"bound"`
 	Seq    bool     `json:"seq"` // sequential: one submission at a time
 	Pairs  bool     `json:"pairs,omitempty"`
+	Fill   bool     `json:"fill,omitempty"`
 	Shard  int      `json:"shard,omitempty"`
 	Shards int      `json:"shards,omitempty"`
 }
@@ -317,6 +318,13 @@ func init() {
 						subs = append(subs, sub{Who: "b", T: alpha[k]})
 						desc += "," + alpha[k].Name
 					}
+					if p.Fill {
+						// two accepted receipts first: with capacity 1 and a credit service that
+						// never answers, one is being forwarded, one sits in the queue - the
+						// submissions under test find the queue full
+						subs = append([]sub{{Who: "c", T: alpha[0]}, {Who: "c", T: alpha[1]}}, subs...)
+						desc = "valid,valid-2," + desc
+					}
 					_ = i
 					st := explore.Explore(func(ch vrt.Chooser) explore.Outcome {
 						cp := append([]sub{}, subs...)
@@ -354,7 +362,8 @@ func init() {
 			}
 		}
 		p1, _ := json.Marshal(c19Params{Cap: 1, Mode: "200", Pairs: true})
-		jobs = append(jobs, check.Job{Kind: "c19", Name: "IN:receipt-pairs-cap1", Params: p1})
+		p1f, _ := json.Marshal(c19Params{Cap: 1, Mode: "never", Pairs: true, Fill: true})
+		jobs = append(jobs, check.Job{Kind: "c19", Name: "IN:receipt-pairs-cap1", Params: p1}, check.Job{Kind: "c19", Name: "IN:receipt-pairs-queue-full", Params: p1f})
 		kinds := []string{"valid", "hash-of-another-text", "signature-empty"}
 		for _, cap := range []int{1, 2} {
 			for _, k1 := range kinds {
